@@ -20,7 +20,7 @@ pub static DEF: PropDef = PropDef {
     id: "C06",
     level: "exploration",
     engine: "ingest",
-    rule: "one run = a real Ingester (WAL on or off, object-store or in-memory catalog, flush_row_count 2..50 or (one run in five) a size threshold of 300 B..6 KB, flush_interval 0.2..5 s, sometimes a tiny max_buffer_size) with 2..4 concurrent writer tasks issuing 3..8 writes each of 1..50-row batches (one write in seven re-sends the previous batch unchanged) over 4 schema variants (both timestamp types, nullable label, i64/u64/f64 extremes incl. NaN/-0/inf/subnormal, near-extreme timestamps) plus the flush timer and two subscribers; no storage faults; requests go through the real Arrow-Flight and OTLP ingest handlers or straight to Ingester::write; a third of the runs drop one handler future in five at a seeded point (client disconnect; that request's rows may or may not be stored, everybody else's must be); every object-store request and the post-WAL-append pause point is a seeded scheduling point; distinct = distinct grant sequence; non-trivial = completed AND writers/flushes interleaved",
+    rule: "one run = a real Ingester (WAL on or off, object-store or in-memory catalog, flush_row_count 2..50 or (one run in five) a size threshold of 300 B..6 KB, flush_interval 0.2..5 s, sometimes a tiny max_buffer_size) with 2..4 concurrent writer tasks issuing 3..8 writes each of 1..50-row batches (one write in seven re-sends the previous batch unchanged) over 7 schema variants (both timestamp types, three that differ from the first one only in a column's nullability, in column order, or in schema metadata, nullable label, i64/u64/f64 extremes incl. NaN/-0/inf/subnormal, near-extreme timestamps) plus the flush timer and two subscribers; no storage faults; requests go through the real Arrow-Flight and OTLP ingest handlers or straight to Ingester::write; a third of the runs drop one handler future in five at a seeded point (client disconnect; that request's rows may or may not be stored, everybody else's must be); every object-store request and the post-WAL-append pause point is a seeded scheduling point; distinct = distinct grant sequence; non-trivial = completed AND writers/flushes interleaved",
     quick_runs: 4000,
     thorough_runs: 60_000,
     run_cap_ms: 30_000,
@@ -109,7 +109,7 @@ fn scen(spec: RunSpec) -> ScenFut {
         let with_cancel = sim::w(3) == 2;
         let mut plans: Vec<Vec<(u32, Vec<Row>, u64, Option<u32>)>> = Vec::new();
         for _ in 0..writers {
-            let base_variant = sim::w(4);
+            let base_variant = [0u32, 1, 2, 3, 5, 6, 7][sim::w(7) as usize];
             let k = sim::w_range(3, 8);
             let mut ops: Vec<(u32, Vec<Row>, u64, Option<u32>)> = Vec::new();
             for _ in 0..k {
@@ -121,7 +121,7 @@ fn scen(spec: RunSpec) -> ScenFut {
                     ops.push(again);
                     continue;
                 }
-                let variant = if sim::w(4) == 3 { sim::w(4) } else { base_variant };
+                let variant = if sim::w(4) == 3 { [0u32, 1, 2, 3, 5, 6, 7][sim::w(7) as usize] } else { base_variant };
                 let nrows = [1usize, 1, 2, 3, 5, 50][sim::w(6) as usize];
                 let extreme_vals = sim::w(4) == 3;
                 let rows: Vec<Row> = (0..nrows)
